@@ -514,6 +514,8 @@ IDIOMS = [
     ("N7.u32_from_le", "u32::from_le_bytes($_e.try_into().unwrap())", "u32_from_le_slice(&$_e)"),
     ("N7.usize_from_bytes", "usize::from_bytes($_e)", "usize_from_bytes($_e)"),
     ("N7.stamp_from_bytes", "Stamp::from_bytes($_e)", "stamp_from_bytes($_e)"),
+    ("N7.map_or", "$o.map_or($_d, |$p| $_b)", "(match $o { None => $_d, Some($p) => $_b })"),
+    ("N7.is_some_and", "$o.is_some_and(|$p| $_b)", "(match $o { Some($p) => $_b, None => false })"),
     ("N8.format", "format!($_a)", "StrH::msg()"),
     ("N3.wild_closure_param", "|_| $_e)", "|_e| $_e)"),
 ]
@@ -850,7 +852,7 @@ def build_unit(unit_dir, out_dir):
         if d.name in ("fn", "fn?"):
             cur_fn = (d, [])
             top.append(("fn", cur_fn))
-        elif d.name in ("requires", "ensures", "rewrite", "loop", "loop?", "forloop", "closure", "hint", "hint?", "sig", "decreases", "recommends", "fnattr", "rename", "tracevar", "drop", "world"):
+        elif d.name in ("requires", "ensures", "rewrite", "loop", "loop?", "forloop", "closure", "hint", "hint?", "sig", "decreases", "recommends", "fnattr", "rename", "tracevar", "drop", "world", "hide"):
             if cur_fn is None:
                 raise VxError(f"unit.vx:{d.lineno}: @{d.name} outside @fn")
             cur_fn[1].append(d)
@@ -1246,7 +1248,9 @@ def emit_fn(em, info, unit, cur_source, blk, typemap):
     parent = getattr(it, "parent", None)
     fnattrs = "".join(s.text.strip() + "\n" for s in subs if s.name == "fnattr")
     prefix = fnattrs + header + clauses_txt + "\n    "
-    body = "{ /*FB*/" + body[1:]
+    # @hide names: Verus `hide(f);` headers (must be the first statements of the body); the definitions stay folded in this body
+    hides = "".join("hide(%s); " % n for s_ in subs if s_.name == "hide" for n in (s_.args + " " + s_.text).split())
+    body = "{ " + hides + "/*FB*/" + body[1:]
     full = prefix + body
     if parent is not None:
         hdr = re.sub(r"^pub(\s*\([^)]*\))?\s+", "", parent.impl_header)
